@@ -284,3 +284,58 @@ Lemma table_refuted_pinned :
 Proof.
   exists (Some [Concrete FileDeleted]), false, IN_MOVED_FROM. apply table_refuted_pinned_move_out.
 Qed.
+
+(* ------------------------------------------------------------------ the two halves of a move *)
+Lemma flag_in_pow2 k m : flag_in (2 ^ k)%N m = N.testbit m k.
+Proof.
+  unfold flag_in.
+  assert (E : N.land m (2 ^ k)%N = if N.testbit m k then (2 ^ k)%N else 0%N).
+  { apply N.bits_inj. intros n. rewrite N.land_spec, N.pow2_bits_eqb.
+    destruct (N.eqb k n) eqn:Ekn.
+    - apply N.eqb_eq in Ekn. subst n. rewrite andb_true_r. destruct (N.testbit m k) eqn:T.
+      + now rewrite N.pow2_bits_eqb, N.eqb_refl.
+      + now rewrite N.bits_0.
+    - rewrite andb_false_r. destruct (N.testbit m k).
+      + now rewrite N.pow2_bits_eqb, Ekn.
+      + now rewrite N.bits_0. }
+  rewrite E. destruct (N.testbit m k).
+  - apply N.eqb_refl.
+  - apply N.eqb_neq. intros H. symmetry in H. apply N.pow_nonzero in H; [exact H | discriminate].
+Qed.
+
+Lemma testbit_fold_lor g l m k :
+  N.testbit (fold_left (fun m c => N.lor m (g c)) l m) k
+  = N.testbit m k || existsb (fun c : evbase => N.testbit (g c) k) l.
+Proof.
+  revert m; induction l as [|c l IH]; intros m; simpl.
+  - now rewrite orb_false_r.
+  - rewrite IH, N.lor_spec, orb_assoc. reflexivity.
+Qed.
+
+(* finite: 13 classes, 2 initial masks, the no-filter mask *)
+Lemma move_whole_sweep :
+  forallb (fun c => Bool.eqb (N.testbit (Gen.mask1 c) 6%N) (N.testbit (Gen.mask1 c) 7%N)) all_bases
+  && forallb (fun r => Bool.eqb (N.testbit (Gen.init_mask r) 6%N) (N.testbit (Gen.init_mask r) 7%N)) [false; true]
+  && Bool.eqb (N.testbit WATCHDOG_ALL_EVENTS 6%N) (N.testbit WATCHDOG_ALL_EVENTS 7%N) = true.
+Proof. vm_compute. reflexivity. Qed.
+
+(* IN_MOVED_FROM is asked for exactly when IN_MOVED_TO is: a paired move is never split by the mask *)
+Lemma mask_move_whole recursive F :
+  flag_set IN_MOVED_FROM (mask_of_filter recursive F) = flag_set IN_MOVED_TO (mask_of_filter recursive F).
+Proof.
+  pose proof move_whole_sweep as S. apply andb_true_iff in S as [S S3]. apply andb_true_iff in S as [S1 S2].
+  rewrite forallb_forall in S1, S2.
+  unfold flag_set. change IN_MOVED_FROM with (2 ^ 6)%N. change IN_MOVED_TO with (2 ^ 7)%N.
+  rewrite !flag_in_pow2. rewrite mask_of_filter_eq_gen.
+  destruct F as [l|]; simpl.
+  - rewrite !testbit_fold_lor. f_equal.
+    + apply Bool.eqb_prop. apply S2. destruct recursive; simpl; tauto.
+    + induction l as [|c l IH]; [reflexivity|]. simpl. rewrite IH. f_equal.
+      apply Bool.eqb_prop. apply S1. apply all_bases_complete.
+  - apply Bool.eqb_prop. exact S3.
+Qed.
+
+(* the pinned table splits moves for no class, but drops them where they matter *)
+Lemma pinned_drops_needed_move :
+  delivered (effective_mask (mask_of_filter_pinned false (Some [Concrete FileDeleted]))) IN_MOVED_FROM = false.
+Proof. vm_compute. reflexivity. Qed.
